@@ -67,21 +67,12 @@ func runBackend(thorough bool, budget time.Duration, only string) *backendResult
 		fmt.Fprintf(os.Stderr, "[%s] %s done in %.1fs\n", backend, name, time.Since(t).Seconds())
 	}
 	cc := newCaseCollector()
-	phase("tables", func() { tableChecks(cc) })
-	phase("group-cases", func() { groupCases(thorough, cc) })
-	phase("group-volume", func() { volumeCases(thorough, cc) })
 	var patternFindings []finding
-	phase("field-patterns", func() {
-		ev, cl := fieldPatternFamily(func(f finding) { patternFindings = append(patternFindings, f) })
-		res.Evals["field-patterns"] = ev
-		for k, v := range cl {
-			res.Classes["field-patterns|"+k] = v
-		}
-	})
 	fd, gd := fieldDepthQuick, 4
 	if thorough {
 		fd, gd = fieldDepthThorough, 5
 	}
+	// the state machines first: they are the only budgeted phases
 	phase("field-machine", func() {
 		st := newFieldMachine().explorer().run(fd, deadline, report)
 		res.Machines = append(res.Machines, st)
@@ -92,6 +83,21 @@ func runBackend(thorough bool, budget time.Duration, only string) *backendResult
 		res.Machines = append(res.Machines, st)
 		res.Capped = res.Capped || st.Capped
 	})
+	phase("tables", func() { tableChecks(cc) })
+	phase("group-cases", func() { groupCases(thorough, cc) })
+	phase("repeat", func() { repeatCases(cc) })
+	phase("ladder", func() { ladderCases(thorough, cc) })
+	phase("field-patterns", func() {
+		ev, cl := fieldPatternFamily(func(f finding) { patternFindings = append(patternFindings, f) })
+		res.Evals["field-patterns"] = ev
+		for k, v := range cl {
+			res.Classes["field-patterns|"+k] = v
+		}
+	})
+	// fixed-size volume families (deterministic sizes per tier and back end, no wall-clock cap)
+	phase("bma-volume", func() { volumeBaseMultiplyAdd(thorough, cc) })
+	phase("addxy-volume", func() { volumeAddXY(thorough, cc) })
+	phase("group-volume", func() { volumeCases(thorough, cc) })
 	// a machine history (exactly replayable) is preferred over the one-step family for the same key
 	res.Findings = append(res.Findings, patternFindings...)
 	for k, v := range cc.evals {
@@ -384,9 +390,20 @@ func replay() {
 	default:
 		// families: re-run the (small, deterministic) family the case belongs to
 		cc := newCaseCollector()
-		if rp.Table != "" || strings.HasPrefix(rp.Family, "table") {
+		switch {
+		case rp.Table != "" || strings.HasPrefix(rp.Family, "table"):
 			tableChecks(cc)
-		} else {
+		case rp.Family == "ladder":
+			ladderCases(false, cc)
+		case rp.Family == "repeat":
+			repeatCases(cc)
+		case rp.Family == "addxy-volume":
+			volumeAddXY(false, cc)
+		case rp.Family == "bma-volume":
+			volumeBaseMultiplyAdd(false, cc)
+		case rp.Family == "group-volume":
+			volumeCases(false, cc)
+		default:
 			groupCases(true, cc)
 		}
 		for _, f := range cc.found {
